@@ -83,9 +83,10 @@ def main(argv=None):
         case = mod.gen(core.case_rng(a.seed, a.prop, a.only), a.tier, a.only)
         run_one(a.only, case)
     else:
-        if a.shard == 0 and hasattr(mod, "pinned"):
+        if hasattr(mod, "pinned"):
             for i, case in enumerate(mod.pinned(a.tier)):
-                run_one(-1 - i, case)
+                if i % a.nshards == a.shard:
+                    run_one(-1 - i, case)
         for k in range(a.shard, a.cases, a.nshards):
             if time.time() - t0 > a.deadline:
                 not_run += 1
